@@ -5,6 +5,7 @@ package resources
 
 import (
 	"fmt"
+	"strconv"
 
 	v1 "k8s.io/api/core/v1"
 	"k8s.io/apimachinery/pkg/api/resource"
@@ -26,7 +27,7 @@ func ExtractGPUSharingRequestedResources(pod *v1.Pod) (v1.ResourceList, error) {
 
 	gpuFractionStr, hasAnnotation := pod.Annotations[constants.GpuFraction]
 	if hasAnnotation {
-		quantity, err := resource.ParseQuantity(gpuFractionStr)
+		quantity, err := parseFraction(gpuFractionStr)
 		if err != nil {
 			return v1.ResourceList{},
 				fmt.Errorf("failed to parse gpu fraction annotation value <%s>, error: %s",
@@ -80,4 +81,18 @@ func getFractionsCount(pod *v1.Pod) (int64, error) {
 			gpuFractionsCountStr)
 	}
 	return fractionsCount, nil
+}
+
+// parseFraction reads a gpu-fraction annotation. Admission, scheduler and binder read it as a floating point
+// number, which admits spellings (hexadecimal floats) that are not quantities.
+func parseFraction(gpuFractionStr string) (resource.Quantity, error) {
+	quantity, err := resource.ParseQuantity(gpuFractionStr)
+	if err == nil {
+		return quantity, nil
+	}
+	fraction, floatErr := strconv.ParseFloat(gpuFractionStr, 64)
+	if floatErr != nil {
+		return resource.Quantity{}, err
+	}
+	return resource.ParseQuantity(strconv.FormatFloat(fraction, 'f', -1, 64))
 }
